@@ -14,6 +14,8 @@ HR(thr, dur, maxq, spec) ==
 FlowAll == { <<>> } \cup { <<FR(num, den, iv, mq)>> : num \in {0, 1, 2, 3, 5}, den \in {1, 2}, iv \in {0, 200}, mq \in {0, 100, 500, 1000} }
 FlowSmall == { <<FR(2, 1, 0, 500)>>, <<FR(3, 1, 0, 1000)>>, <<FR(5, 2, 200, 100)>> }
 FlowNone == { <<>> }
+\* two throttling rules on one resource (the caller is held by one after the other, in either order)
+FlowTwo == { <<FR(2, 1, 0, 1000), [FR(1, 1, 0, 2000) EXCEPT !.id = "f2"]>>, <<FR(3, 1, 0, 500), [FR(2, 1, 0, 500) EXCEPT !.id = "f2"]>> }
 HotAll == { <<>> } \cup { <<HR(q, d, mq, sp)>> : q \in {0, 1, 2, 3}, d \in {1, 2}, mq \in {0, 500, 1000}, sp \in {<<>>, ("b" :> 1)} }
 HotSmall == { <<HR(2, 1, 1000, <<>>)>>, <<HR(3, 1, 500, ("b" :> 1))>>, <<HR(1, 2, 0, <<>>)>> }
 HotNone == { <<>> }
